@@ -241,5 +241,70 @@ core_prop("C20", "c20", 480, 16000,
     ["mio puts the events of one poll into one batch in an order the harness cannot force on the real "
      "poll; the probe calls the real handle_steady_event with hand-made events in the order wanted"])
 
+
+L2_TRUSTED = [
+    "the mock transport of /verif/harness/src/l2.rs (a mio::Registration-backed IoStream) and the scripted "
+    "broker stand for a TCP socket and a server: the real Connection, its I/O thread and mio::Poll run "
+    "unmodified on top of them",
+    "amq-protocol (de)serialisation of method and header payloads: both ends use it; frame envelopes are "
+    "split by the harness's own splitter",
+]
+PROPS["C02"] = {
+    "check_mods": ["C02"],
+    "model_out": "model_out",
+    "drivers": [{"name": "c02", "n_quick": 250, "n_thorough": 6000, "timeout": 3000}],
+    "rule": "real Channel::basic_publish / Exchange::publish on 1-3 channels of a real connection over the mock "
+            "transport, publishes of the channels interleaved; negotiated frame_max from {4096, 4097, 4100, "
+            "5000, 8192 (thorough: 16384, 65536, 131072)} reached from either side's setting; for each a sweep "
+            "of body lengths k*limit-1, k*limit, k*limit+1 (k = 0..3), then random lengths (0, 1, limit-1, "
+            "multiples and neighbours, 2-600), all four flag combinations, 4 property sets, exchange / "
+            "routing key from empty to 255 bytes. Bodies are generated by a formula shared with Coq. "
+            "non-trivial = at least one publish; distinct = distinct case term (one case = one channel's "
+            "publishes and the frames the broker saw on it).",
+    "explanation": "C02_concat / C02_sizes / C02_full / C02_empty / C02_count / C02_frame_size / "
+                   "C02_publish for every body and every admissible frame_max. The frames the broker "
+                   "decodes per channel must equal the model's, and - independently of the splitter model - "
+                   "satisfy the property text: method fields, header size and properties, body frames "
+                   "non-empty, within frame_max including 8 bytes, each one's checksum that of the next "
+                   "bytes of the body, nothing else in between, publishes in order.",
+    "trusted_base": L2_TRUSTED,
+    "assumptions": ["method and header frames are not limited by frame_max in the code; the property "
+                    "constrains body frames only"],
+}
+
+
+PROPS["C16"] = {
+    "check_mods": ["C16"],
+    "model_out": "model_agrees",
+    "drivers": [{"name": "c16", "n_quick": 400, "n_thorough": 6000, "timeout": 3000}],
+    "rule": "L1: the real HandshakeState::process through the HandshakeProbe on EVERY frame sequence of length "
+            "<= 3 (thorough: 4) over a 12-symbol handshake alphabet {Start ok / wrong mechanism / wrong locale, "
+            "Secure, Tune unlimited / too small / ok, OpenOk, Close, heartbeat, two out-of-place frames} "
+            "(sequences whose first frame already fails are thinned 1:6), plus random sequences with random "
+            "options; per frame: error, state, frames queued, seal flag, heartbeat timer intervals. L2: the "
+            "real Connection::insecure_open_stream against a scripted broker: random option sets (PLAIN / "
+            "EXTERNAL, users, locale, vhost, information, limits, 250 ms timeout or none) x random server "
+            "scripts of read episodes (frames cut anywhere, several frames per read, ending in would-block, "
+            "EOF or reset in the SAME read, garbage) and silences; outcome, the frames actually written, the "
+            "server properties exposed, the StartOk client properties. non-trivial = at least two frames / "
+            "one event; distinct = distinct case term.",
+    "explanation": "C16_connected_only_after_exchange / C16_sent_prefix / C16_err_* / C16_no_hang_with_timeout / "
+                   "C16_hang_means_silence / C16_heartbeat_as_announced, all for every server behaviour. "
+                   "Both layers must equal the model; the oracle - a staged reading of what the server did, "
+                   "written from the property text with the documented negotiation spelled out - must give "
+                   "the same outcome and the same frames on the wire.",
+    "trusted_base": L2_TRUSTED + ["ConnectionTimeout is real time: 250 ms timeouts, the broker waits up to 900 ms"],
+    "assumptions": ["writes during the handshake are accepted by the transport (the broker's mock does); "
+                    "write failures are covered by C05's mapping"],
+}
+PROPS["C15"]["check_mods"] = ["C15", "C16"]
+PROPS["C15"]["drivers"] = PROPS["C15"]["drivers"] + [{"name": "c16", "n_quick": 150, "n_thorough": 2000, "timeout": 3000}]
+PROPS["C15"]["rule"] += (" Second driver (c16): the handshake itself - the TuneOk actually sent and the interval the "
+                         "heartbeat timers are started with (HandshakeProbe), end to end the frames on the wire.")
+PROPS["C15"]["explanation"] += (" 'Then obeyed': C16_heartbeat_as_announced (timers run with the announced interval), "
+                                "C02_frame_size (body frames within the announced frame_max), C10 (no id above "
+                                "channel_max); the c16 driver compares the timers' intervals and the TuneOk on "
+                                "the wire with the model.")
+
 # properties not claimed, with the reason (kept current)
 NOT_APPLICABLE = {}
